@@ -643,7 +643,11 @@ func genTrapezium(r *rand.Rand, w Window) ([][]Pt, bool) {
 // (WebMercatorQuad ids 17-20 around New Zealand / Western Europe): float cancellation territory.
 func deepRealCase(r *rand.Rand) (*Grid, [][]Pt, int, bool) {
 	id := []int{17, 18, 19, 20}[r.Intn(4)]
-	g, err := embeddedGrid("WebMercatorQuad", id)
+	name := "WebMercatorQuad"
+	if r.Intn(4) == 0 { // a set whose cell sizes are written with rounded decimals (quotients of cell sizes just below a power of two)
+		name, id = "EuropeanETRS89_LAEAQuad", []int{11, 14, 15}[r.Intn(3)]
+	}
+	g, err := embeddedGrid(name, id)
 	if err != nil || g.Deep > 32 {
 		return nil, nil, 0, false
 	}
@@ -653,6 +657,10 @@ func deepRealCase(r *rand.Rand) (*Grid, [][]Pt, int, bool) {
 	}
 	px := (ax-g.Ext[0])/g.Res + r.Int63n(1000)
 	py := (ay-g.Ext[1])/g.Res + r.Int63n(1000)
+	if name != "WebMercatorQuad" {
+		size := int64(1) << g.Deep
+		px, py = size/4+r.Int63n(size/2), size/4+r.Int63n(size/2)
+	}
 	w := Window{G: g, X0: g.Ext[0] + px*g.Res, Y0: g.Ext[1] + py*g.Res, W: 3 + r.Int63n(6), Unit: max64(1, g.Res/4)}
 	rect := r.Intn(2) == 0 // rectilinear shell with an aligned hole: every hole vertex exactly below a vertical shell edge
 	if rect {
@@ -681,6 +689,9 @@ func deepRealCase(r *rand.Rand) (*Grid, [][]Pt, int, bool) {
 		}
 		if ok && validPolygon(poly) && g.inGrid(poly) {
 			lastDeepKind = "deep real grid"
+			if name != "WebMercatorQuad" {
+				lastDeepKind = "deep real grid " + name
+			}
 			if rect {
 				lastDeepKind = fmt.Sprintf("deep real grid, rectilinear, %d ring(s)", len(poly))
 			}
